@@ -4,4 +4,4 @@ Require Extraction.
 Require ExtrOcamlBasic.
 Extraction "../extract/gen/repack_model.ml"
   parse_comp parse_chunk parse_number print_comp print_chunk build options_consistent names_ok decisions_ok repack
-  decide expect_comp expect_chunk meets content_of str_eqb.
+  decide expect_comp expect_chunk meets content_of str_eqb get_info step options_init.
